@@ -16,10 +16,13 @@
 (* where the view is what the three compilers of one compile_dict call     *)
 (* read.  It reduces to: every pass is idempotent (EachPassIdempotent), a  *)
 (* compile leaves a fixpoint (CompileReachesFixpoint), and no pass reads a *)
-(* flag that a call with other options wrote.  With Devs = {} (the         *)
-(* mechanism the property requires) TLC proves the invariants for ALL      *)
-(* histories up to MaxLen over the corpus; with the deviations the code    *)
-(* really has (Devs = AllDevs) TLC exhibits the breaking histories.        *)
+(* flag that a call with other options wrote.  With Devs =                 *)
+(* {DevCompileInPlace} (in-place passes that are idempotent and do not     *)
+(* depend on options: a mechanism the property allows; Devs = {} is the    *)
+(* trivial one that never touches the caller's dictionary) TLC proves the  *)
+(* invariants for ALL histories up to MaxLen over the corpus; with the     *)
+(* deviations the code really has (Devs = AllDevs) TLC exhibits the        *)
+(* breaking histories.                                                     *)
 (*                                                                         *)
 (* The same system generates the histories that are replayed into the real *)
 (* compile_dict (binding A): Emit writes  [mod, hist, exp]  per state.     *)
@@ -59,7 +62,7 @@ Init ==
   /\ gErr = ""
 
 DoCompile(st) ==
-  LET c == Compile(gM, st.ne, Devs)
+  LET c == CompileDict(gM, st.ne, Devs)
   IN /\ gM' = c.m
      /\ gErr' = c.err
      /\ gExp' = Append(gExp, View(c) # View(FreshOf(gMod, st.ne)))
